@@ -6,6 +6,7 @@ package state_test
 // pending; expired notices and warnings disappear.
 
 import (
+	"bytes"
 	"encoding/json"
 	"fmt"
 	"sort"
@@ -16,6 +17,15 @@ import (
 	"github.com/snapcore/snapd/overlord/state"
 )
 
+// verifBackendC09 keeps the last checkpoint so that a run can restart from it.
+type verifBackendC09 struct{ last []byte }
+
+func (b *verifBackendC09) Checkpoint(data []byte) error {
+	b.last = append([]byte(nil), data...)
+	return nil
+}
+func (b *verifBackendC09) EnsureBefore(time.Duration) {}
+
 type verifChgInfo struct {
 	id      string
 	tasks   []string
@@ -23,6 +33,7 @@ type verifChgInfo struct {
 	ready   time.Time
 	isReady bool
 	attr    bool
+	attrs   []string
 	empty   bool
 }
 
@@ -30,11 +41,33 @@ func verifRunC09(c *verifsim.Ctx) {
 	verifCanonicalOrder()
 	defer func() { state.VerifOrderTasks = nil; state.VerifOrderChanges = nil }()
 	t0 := time.Now()
-	st := state.New(nil)
+	be := &verifBackendC09{}
+	st := state.New(be)
 	st.Lock()
-	defer st.Unlock()
-	pendingSays := c.Draw("pending-says", 2) == 1
-	st.RegisterPendingChangeByAttr("pend", func(*state.Change) bool { return pendingSays })
+	defer func() { st.Unlock() }()
+	// up to three registered predicates, each with its own answer; a change is
+	// pending when any predicate registered for an attribute it carries says so
+	attrNames := []string{"pend", "pend-b", "pend-c"}
+	npred := 1 + c.Draw("npredicates", 3)
+	says := map[string]bool{}
+	for i := 0; i < npred; i++ {
+		says[attrNames[i]] = c.Draw("pending-says", 2) == 1
+	}
+	register := func() {
+		for i := 0; i < npred; i++ {
+			a := attrNames[i]
+			st.RegisterPendingChangeByAttr(a, func(*state.Change) bool { return says[a] })
+		}
+	}
+	register()
+	pendingFor := func(attrs []string) bool {
+		for _, a := range attrs {
+			if says[a] {
+				return true
+			}
+		}
+		return false
+	}
 	startOfOp := time.Now().Add(time.Duration(c.Draw("start-of-op", 48)) * time.Hour)
 	nchTotal := 0
 
@@ -55,6 +88,13 @@ func verifRunC09(c *verifsim.Ctx) {
 			}
 			if c.Draw("attr", 3) == 2 {
 				chg.Set("pend", true)
+				for i := 1; i < npred; i++ {
+					if c.Draw("attr-more", 2) == 1 {
+						chg.Set(attrNames[i], true)
+					}
+				}
+			} else if npred > 1 && c.Draw("attr-other-only", 4) == 3 {
+				chg.Set(attrNames[1], true)
 			}
 			if nt > 0 && c.Draw("ready?", 3) != 0 {
 				for _, t := range ts {
@@ -63,7 +103,7 @@ func verifRunC09(c *verifsim.Ctx) {
 			} else if nt > 0 && c.Draw("partly?", 2) == 1 {
 				ts[0].SetStatus(state.DoneStatus)
 			}
-			c.Logf("change %s tasks=%d ready=%v attr=%v", chg.ID(), nt, chg.IsReady(), chg.Has("pend"))
+			c.Logf("change %s tasks=%d ready=%v attr=%v/%v/%v", chg.ID(), nt, chg.IsReady(), chg.Has("pend"), chg.Has("pend-b"), chg.Has("pend-c"))
 			st.Unlock()
 			if c.Draw("gap?", 3) != 0 {
 				time.Sleep(time.Duration(c.Draw("gap", 30*60)) * time.Minute)
@@ -87,7 +127,18 @@ func verifRunC09(c *verifsim.Ctx) {
 		addChanges()
 		st.Unlock()
 		time.Sleep(time.Duration(c.Draw("wait", 9*24*60)) * time.Minute)
+		if c.Draw("restart?", 3) == 2 && be.last != nil {
+			// snapd restarts: the state is read back from the last checkpoint
+			nst, err := state.ReadState(be, bytes.NewReader(be.last))
+			if err != nil {
+				c.Fatalf("C09: cannot read state back: %v", err)
+			}
+			st = nst
+			c.Count("probe:restart-before-prune")
+			c.Logf("restart")
+		}
 		st.Lock()
+		register()
 
 		pruneWait := time.Duration(1+c.Draw("prune-wait", 72)) * time.Hour
 		abortWait := time.Duration(1+c.Draw("abort-wait", 120)) * time.Hour
@@ -97,7 +148,15 @@ func verifRunC09(c *verifsim.Ctx) {
 		statusBefore := map[string]state.Status{}
 		var ids []string
 		for _, ch := range st.Changes() {
-			ci := &verifChgInfo{id: ch.ID(), spawn: ch.SpawnTime(), ready: ch.ReadyTime(), isReady: !ch.ReadyTime().IsZero(), attr: ch.Has("pend"), empty: len(ch.Tasks()) == 0}
+			ci := &verifChgInfo{id: ch.ID(), spawn: ch.SpawnTime(), ready: ch.ReadyTime(), isReady: !ch.ReadyTime().IsZero(), empty: len(ch.Tasks()) == 0}
+			for i := 0; i < npred; i++ {
+				if ch.Has(attrNames[i]) {
+					ci.attrs = append(ci.attrs, attrNames[i])
+				}
+			}
+			ci.attr = len(ci.attrs) > 0
+			pendingSays := pendingFor(ci.attrs)
+			_ = pendingSays
 			for _, t := range ch.Tasks() {
 				ci.tasks = append(ci.tasks, t.ID())
 				statusBefore[t.ID()] = t.Status()
@@ -115,7 +174,7 @@ func verifRunC09(c *verifsim.Ctx) {
 		st.Prune(startOfOp, pruneWait, abortWait, maxReady)
 		c.Nontrivial()
 		c.Count("prune-calls")
-		c.Logf("prune now=+%v startOfOp=+%v pruneWait=%v abortWait=%v maxReady=%d pendingSays=%v changes=%d", now.Sub(t0), startOfOp.Sub(t0), pruneWait, abortWait, maxReady, pendingSays, len(ids))
+		c.Logf("prune now=+%v startOfOp=+%v pruneWait=%v abortWait=%v maxReady=%d pendingSays=%v changes=%d", now.Sub(t0), startOfOp.Sub(t0), pruneWait, abortWait, maxReady, fmt.Sprint(says), len(ids))
 
 		after := map[string]bool{}
 		for _, ch := range st.Changes() {
@@ -154,6 +213,7 @@ func verifRunC09(c *verifsim.Ctx) {
 						abortedNow = true
 					}
 				}
+				pendingSays := pendingFor(ci.attrs)
 				mayAbort := effSpawn.Before(now.Add(-abortWait)) && !(ci.attr && pendingSays)
 				if abortedNow {
 					c.Count("probe:aborted-old-unready")
